@@ -161,3 +161,49 @@ Qed.
 
 Lemma read_track_q_on_grid q ms : Forall (on_grid q) (scan ms 0 []) -> read_track_q q ms = read_track ms.
 Proof. intros H. unfold read_track_q, read_track. rewrite qnotes_on_grid by exact H. reflexivity. Qed.
+
+(** ---- round trip under quantisation: music written on the grid is read back unchanged with quantize = the grid ---- *)
+Definition events_on_grid (q : Z) (es : list event) : bool :=
+  forallb (fun e => (e_dur e mod q =? 0) && forallb (fun v => v_len v mod q =? 0) (e_voices e)) es.
+
+Lemma mod0_multiple x q : 0 < q -> x mod q = 0 -> exists k, x = k * q.
+Proof. intros Hq H. exists (x / q). pose proof (Z.div_mod x q ltac:(lia)). lia. Qed.
+
+Lemma place_all_on_grid q : 0 < q -> forall es o, events_on_grid q es = true -> o mod q = 0 ->
+  Forall (on_grid q) (map cl (place_all es o)).
+Proof.
+  intros Hq. induction es as [|e es IH]; intros o G Ho; [constructor|].
+  cbn [events_on_grid forallb] in G. apply andb_true_iff in G as [Ge G]. apply andb_true_iff in Ge as [Gd Gv].
+  cbn [place_all]. rewrite map_app. apply Forall_app. split.
+  - unfold place. rewrite map_map. apply Forall_forall. intros n Hn. apply in_map_iff in Hn as [v [<- Hv]].
+    unfold cl, mkn, on_grid. cbn [n_loc n_dur f_on f_voice].
+    split; [apply mod0_multiple; assumption|].
+    rewrite forallb_forall in Gv. specialize (Gv v Hv). apply mod0_multiple; [exact Hq | lia].
+  - apply IH; [exact G|]. rewrite Z.add_mod by lia. rewrite Ho. replace (e_dur e mod q) with 0 by lia. reflexivity.
+Qed.
+
+Lemma roundtrip_track_q q es tend : 0 < q -> events_ok es = true -> events_on_grid q es = true ->
+  read_track_q q (encode 0 (sched_calls es) tend) = ROk (expected es).
+Proof.
+  intros Hq Hok G. rewrite read_track_q_on_grid; [apply roundtrip_track; exact Hok|].
+  rewrite scan_file_of_calls by exact Hok. apply place_all_on_grid; [exact Hq | exact G | reflexivity].
+Qed.
+
+Lemma roundtrip_file_q q es : 0 < q -> events_ok es = true -> events_on_grid q es = true -> place_all es 0 <> [] ->
+  read_file_q q [file_of_events es] = ROk (expected es).
+Proof.
+  intros Hq Hok G Hne. unfold read_file_q, file_of_events. cbn [find]. rewrite file_has_note_on by exact Hne.
+  apply roundtrip_track_q; assumption.
+Qed.
+
+Lemma hist_roundtrip_q f pre p es mid q post :
+  0 < q -> events_ok es = true -> events_on_grid q es = true -> place_all es 0 <> [] ->
+  forallb (fun o => negb (touches p o)) mid = true ->
+  nth_error (hist_run f (pre ++ HSave p es :: mid ++ HRead p q :: post)) (count_reads (pre ++ HSave p es :: mid))
+  = Some (Some (ROk (expected es))).
+Proof.
+  intros Hq Hok G Hne H.
+  replace (pre ++ HSave p es :: mid ++ HRead p q :: post) with ((pre ++ HSave p es :: mid) ++ HRead p q :: post)
+    by (rewrite <- app_assoc; reflexivity).
+  rewrite hist_read_spec, fs_after_save by exact H. cbn [option_map]. rewrite roundtrip_file_q by assumption. reflexivity.
+Qed.
